@@ -126,6 +126,7 @@ def sym_mode_stats(ctx: PathCtx, d: int, K: int, nu=None, tag="") -> ModeStatist
             dofs.append(real(ctx, f"nu{tag}{k}", lo=0, lo_strict=True))
         else:
             dofs.append(nu[k] if isinstance(nu, (list, tuple)) else nu)
+    ms.labels = np.arange(K)
     ms.means = sarr(means)
     ms.covariances = sarr(covs)
     ms.inv_covariances = sarr(invs)
